@@ -4,6 +4,7 @@ CONSTANTS
   Data <- DataFull
   SemW = 16
   FixedMask = TRUE
+    FixedReentry = TRUE
   Junk = {0}
   Sides = {"fc", "fd"}
 SPECIFICATION TraceSpec
